@@ -243,7 +243,7 @@ func runDispatchE2E(in dispIn, late bool, workers int, work string, seq int) dis
 	}
 	recvErr := make(chan error, 1)
 	go func() { recvErr <- fakeResumeReceiver(ctx, rc, in.Report, late, info, delivered) }()
-	opts := transfer.Options{ChunkSize: chunk, ParallelFiles: workers, Resume: true, ResumeVerifyTail: uint32(in.Tail)}
+	opts := transfer.Options{ChunkSize: chunk, ParallelFiles: workers, Resume: true, ResumeVerifyTail: uint32(in.Tail), ResumeTimeout: 10 * time.Second} // (the CLI's resume timeout)
 	if in.VerifyOn {
 		opts.ResumeVerify, opts.HashAlg = "last", "crc32c"
 	} else {
